@@ -150,6 +150,23 @@ class C18(Prop):
             c += 'oops( .\n'
         elif cmode == 'too-large':
             c += 'big :- ' + ', '.join('g(X%d)' % i for i in range(25)) + '.\n'
+        extra = src.n(6)
+        if extra == 4:
+            # predicate names that differ only in case, or only in quoting / a trailing digit: any ordering or grouping
+            # of the output by a derived key meets a tie here
+            twins = src.pick([('nextTo', 'nextto'), ("'Foo'", 'foo'), ('aB', 'ab', "'Ab'", "'AB'"), ('p_1', 'p', "'P'"), ('q1', "'Q1'", 'q_1')])
+            add = ''.join('%s(%s).\n' % (n, ', '.join('abc'[j] for j in range(1 + i % 2))) for i, n in enumerate(twins))
+            add += ''.join('%s(X, Y, Z) :- %s(X), %s(Y), Z = X.\n' % (n, twins[0], twins[-1]) for n in twins[:2])
+            a, b = a + add, add + b
+        elif extra == 5:
+            # long lists with and without variables (sudoku rows, lookup tables): more than 8 elements
+            n = 9 + src.n(8)
+            row = 'row([%s]).\n' % ', '.join('C%d' % i for i in range(n))
+            tbl = 'tbl([%s]).\n' % ', '.join('k%d' % i for i in range(n + 1))
+            mixed = 'mix([%s|T], T).\n' % ', '.join(('M%d' % i) if i % 3 else 'x' for i in range(n))
+            a = a + tbl + (row if src.n(2) else '')
+            b = b + row + tbl
+            c = src.pick([row, mixed, tbl + row]) + c
         case = {'a': a, 'b': b, 'c': c, 'cmode': cmode}
         if src.n(5) == 0:
             case['cli'] = True      # additionally: A, B, C (and A again) as the source files of one command-line run
